@@ -11,7 +11,7 @@
    unbounded recursion of the code (frame reassembly) recurses on the input. *)
 From Coq Require Import List NArith ZArith.
 From Cedar Require Import Lib.Bytes gen.Consts Model.Msg Model.Decode Model.Sinful Model.Version gen.FactsC13 Proofs.C13 Proofs.C13ad Proofs.C13raw Proofs.C13sinful Proofs.C13version Proofs.C13sites.
-From Cedar Require Import Model.Addr Proofs.C13addr.
+From Cedar Require Import Model.Addr Proofs.C13addr Model.PassSock Proofs.C13passsock Model.Watch Proofs.C13watch.
 Import ListNotations.
 Local Open Scope N_scope.
 
@@ -338,4 +338,87 @@ Example C13_addr_example :
   contact_string [x68; x3a; x31; x23; x34; x32] 17 = [x68; x3a; x31; x23; x34; x32; x23; x31; x37]
   /\ plain_ends [x68; x3a; x31; x23; x34; x32] = true
   /\ split_broker_list [x61; x2c; x20; x62; x0a; x2c; x63] = [[x61]; [x62]; [x63]].
+Proof. repeat split; vm_compute; reflexivity. Qed.
+
+(* ---- shared-port pass-socket header (client/sharedport/endpoint_protocol.go, Model/PassSock.v) ---- *)
+(* For ANY byte stream: readPassSockHeader never panics (the slice hdr[1:5] and make([]byte,
+   length) are explicit partial operations of the model); it consumes a prefix of at most
+   5 + 64 bytes; it allocates at most 64 bytes, and nothing before a complete 5-byte header has
+   arrived; and it accepts ONLY the 13-byte header that writePassSockHeader produces (with any
+   end-flag byte) -- every other input is an error, never a default. *)
+Theorem C13_pass_sock_total_bounded :
+  forall inp : bytes,
+    let '(res, st) := read_pass_sock_header inp in
+    res <> PsPanic /\
+    exists pre, inp = pre ++ ps_in st /\
+      lenN pre <= PsHeaderSize + PsMaxHeaderPayload /\
+      ps_alloc st <= PsMaxHeaderPayload /\
+      (0 < ps_alloc st -> PsHeaderSize <= lenN pre) /\
+      (res = PsOk -> ps_alloc st = PsIntPayloadLen /\
+                     exists flag, pre = flag :: be_enc 4 PsIntPayloadLen ++ be_enc 8 PassSockCmd).
+Proof. exact read_pass_sock_header_spec. Qed.
+Print Assumptions C13_pass_sock_total_bounded.
+
+(* reader . writer = identity: the written header followed by ANY bytes is accepted, exactly
+   its 13 bytes are consumed. *)
+Theorem C13_pass_sock_round_trip :
+  forall rest : bytes,
+    read_pass_sock_header (write_pass_sock_header ++ rest) = (PsOk, {| ps_in := rest; ps_alloc := 8 |}).
+Proof. exact pass_sock_round_trip. Qed.
+Print Assumptions C13_pass_sock_round_trip.
+
+Example C13_pass_sock_example :
+  (* declared length 65: refused after the 5 header bytes, nothing allocated; declared 64 with
+     3 bytes supplied: 64 allocated, short read *)
+  read_pass_sock_header [x01; x00; x00; x00; x41; x00; x00] = (PsErr PsBadLen, {| ps_in := [x00; x00]; ps_alloc := 0 |})
+  /\ read_pass_sock_header [x01; x00; x00; x00; x40; x00; x00; x00] = (PsErr PsShort, {| ps_in := []; ps_alloc := 64 |})
+  /\ write_pass_sock_header = [x01; x00; x00; x00; x08; x00; x00; x00; x00; x00; x00; x00; x4c].
+Proof. repeat split; vm_compute; reflexivity. Qed.
+
+(* ---- watch.DecodeRequest / DecodeHeader / decodeBytes (watch/watch.go, Model/Watch.v) -------- *)
+(* base64.StdEncoding.DecodeString as decodeBytes uses it, for ANY byte string: the writes
+   dst[k] of decodeQuantum never leave the buffer make([]byte, len(s)/4*3) that DecodeString
+   allocated (B64Panic is that explicit bound check); the buffer is no larger than the text;
+   and a decoded value fits the buffer. *)
+Theorem C13_watch_base64_total_bounded :
+  forall s : bytes,
+    b64_decode s <> B64Panic /\
+    b64_cap s <= lenN s /\
+    forall out, b64_decode s = B64Ok out -> lenN out <= b64_cap s.
+Proof. exact b64_decode_spec. Qed.
+Print Assumptions C13_watch_base64_total_bounded.
+
+(* DecodeRequest on ANY ad (given by its three string lookups): no panic; an accepted request
+   has a non-empty WatchAdType (a missing or empty one is an error, not a default), and the
+   cursor is no longer than its base64 text. *)
+Theorem C13_watch_request_total_bounded :
+  forall ad : wreq_ad,
+    decode_request ad <> WPanic /\
+    forall t c cur, decode_request ad = WOk (t, c, cur) ->
+      wa_type ad = Some t /\ t <> [] /\ c = opt_str (wa_constraint ad) /\
+      lenN cur <= lenN (opt_str (wa_cursor ad)).
+Proof. exact decode_request_spec. Qed.
+Print Assumptions C13_watch_request_total_bounded.
+
+(* DecodeHeader: no panic; a header without an integer WatchKind is an error; key and cursor
+   are no longer than their texts. *)
+Theorem C13_watch_header_total_bounded :
+  forall ad : whdr_ad,
+    decode_header ad <> WPanic /\
+    forall k key cur, decode_header ad = WOk (k, key, cur) ->
+      wh_kind ad = Some k /\ lenN key <= lenN (opt_str (wh_key ad)) /\
+      lenN cur <= lenN (opt_str (wh_cursor ad)).
+Proof. exact decode_header_spec. Qed.
+Print Assumptions C13_watch_header_total_bounded.
+
+Example C13_watch_example :
+  (* "aGVs\nbG8h" = "hello!"; "aGVsbG8" (padding missing) and "AA==A" (trailing garbage) are errors;
+     "AB==" decodes (StdEncoding is not strict about the unused bits) *)
+  b64_decode [x61; x47; x56; x73; x0a; x62; x47; x38; x68] = B64Ok [x68; x65; x6c; x6c; x6f; x21]
+  /\ b64_decode [x61; x47; x56; x73; x62; x47; x38] = B64Err
+  /\ b64_decode [x41; x41; x3d; x3d; x41] = B64Err
+  /\ b64_decode [x41; x42; x3d; x3d] = B64Ok [x00]
+  /\ b64_encode [x68; x65; x6c; x6c; x6f] = [x61; x47; x56; x73; x62; x47; x38; x3d]
+  /\ decode_request {| wa_type := Some []; wa_constraint := None; wa_cursor := None |} = WErr
+  /\ decode_header (encode_header 3 (Some [x00; xff]) None) = WOk (3%Z, [x00; xff], []).
 Proof. repeat split; vm_compute; reflexivity. Qed.
